@@ -728,8 +728,14 @@ impl CliOptions for GetOptsOptions {
             config.set_cli().print_misformatted_file_names(true);
         }
 
+        // `max_width` first: the other width options are clamped against it when they are set.
+        if let Some(val) = self.inline_config.get("max_width") {
+            config.override_value("max_width", val);
+        }
         for (key, val) in self.inline_config {
-            config.override_value(&key, &val);
+            if key != "max_width" {
+                config.override_value(&key, &val);
+            }
         }
     }
 
